@@ -56,6 +56,9 @@ func c10Kind(d *Defs, f Field) string {
 			k += ".empty"
 		}
 	}
+	if f.Default.K == 'a' && len(f.Default.A) == 0 && !strings.HasSuffix(k, ".empty") {
+		k += ".empty"
+	}
 	if f.Default.K == 'n' {
 		if c := canonNumber(f.Default.S); len(strings.TrimLeft(c, "-")) > 15 && !strings.Contains(c, ".") {
 			k += ".huge"
@@ -94,7 +97,7 @@ func c10Expectations(d *Defs) []c10Expect {
 				out = append(out, c10Expect{obj, p, "const", f.Ty.Const, flags})
 			case f.Default != nil:
 				out = append(out, c10Expect{obj, p, c10Kind(d, f), *f.Default, flags})
-			case f.Ty.Kind == SStruct && f.Required:
+			case f.Ty.Kind == SStruct && f.Required && !f.Nullable:
 				// inline struct without default: its members show through the parent's constructor
 				walk(obj, p+".", f.Ty, depth+1)
 			}
@@ -219,6 +222,7 @@ type c10Term struct {
 // working) — see /verif/.work/proposed_findings_C10.json; every one is replayed on every run.
 var c10Pinned = []c10Term{
 	{ID: "scalars", Degrade: 1, Src: `(defs "Root" ("Root" (struct (field "b" (bool) false false true) (field "bf" (bool) true false false) (field "i" (int 64 true - -) false false (n "-3")) (field "z" (int 64 true - -) false false (n "0")) (field "ir" (int 32 true - -) true false (n "7")) (field "f" (num 64 - -) false false (n "2.5")) (field "fi" (num 64 - -) true false (n "3")) (field "fl" (num 64 - -) false false (n "1000000")) (field "s" (string - - false) false false (s "hey")) (field "zs" (string - - false) false false (s "")) (field "sq" (string - - false) true false (s "a\"b\\c")) (field "c" (const (s "fixed")) true false -) (field "ci" (const (n "-47")) false false -))))`},
+	{ID: "const-int", Degrade: 1, Src: `(defs "Root" ("Root" (struct (field "cr" (const (n "75")) true false -) (field "co" (const (n "-47")) false false -) (field "cs" (const (s "fixed")) true false -))))`},
 	{ID: "nullable-scalar", Degrade: 1, Src: `(defs "Root" ("Root" (struct (field "st" (string - - false) false true (s "hey")) (field "n" (int 64 true - -) false true (n "4")))))`},
 	{ID: "list-of-strings", Degrade: 1, Src: `(defs "Root" ("Root" (struct (field "l" (array (string - - false)) false false (a (s "a") (s "b"))) (field "lr" (array (string - - false)) true false (a (s "x"))))))`},
 	{ID: "list-of-ints", Degrade: 1, Src: `(defs "Root" ("Root" (struct (field "li" (array (int 64 true - -)) false false (a (n "1") (n "2"))))))`},
@@ -353,9 +357,10 @@ func c10Stream(args map[string]string, out *bufio.Writer) error {
 			continue
 		case c.GenErr != "":
 			// a legitimate schema cog refuses to generate for: an observation of its own
+			// (except CUE's own "structural cycle" verdict on some recursive terms, see LAB.md)
 			exp := c10Expectations(c.Defs)
 			verdict := "ok"
-			if len(exp) > 0 {
+			if len(exp) > 0 && !strings.Contains(c.GenErr, "structural cycle") {
 				verdict = fmt.Sprintf("FAIL lang=both class=generr format=%s pinned=%s kind=%s path=%s.%s expected=%s got=%s", c.Format, tag, exp[0].Kind, exp[0].Object, exp[0].Path, exp[0].Want.json(), c10Short(labOneLine(c.GenErr)))
 			}
 			fmt.Fprintf(out, "-\tgenerr %s %s %s src=%s\t%s\n", c.ID, tag, c10Short(labOneLine(c.GenErr)), c.Defs.sexp(), verdict)
